@@ -14,17 +14,21 @@ Szs == <<"full", "half", "quarter">>
 \* "idx0" a name of its own and the index zero WRITTEN OUT (idx="0": the default, schema-valid, what some producers write)
 PhN(t, i, o, z, g, car, nm) == [type |-> Types[t], idx |-> i, orient |-> o, sz |-> Szs[z], own |-> g, car |-> car, nm |-> nm]
 PhC(t, i, o, z, g, car) == PhN(t, i, o, z, g, car, "u")
+\* part: the placeholder's a:xfrm holds only a position ("off") or only a size ("ext"); the other pair comes from the master
+PhP(t, i, part) == [type |-> Types[t], idx |-> i, orient |-> "horz", sz |-> "full", own |-> TRUE, car |-> "sp", nm |-> "u", part |-> part]
+Partial == {PhP(t, i, part) : t \in {1, 2, 3, 9, 16}, i \in {0, 1, 13}, part \in {"off", "ext"}}
 Ph(t, i, o, z, g) == PhC(t, i, o, z, g, "sp")
 Filled == {PhC(t, i, "horz", 1, g, "pic") : t \in {9, 12, 16}, i \in {1, 13}, g \in BOOLEAN}
           \cup {PhC(t, i, "horz", 1, TRUE, "gf") : t \in {9, 10, 11, 13}, i \in {1, 13}}
 \* MODE "single": every single placeholder variant; "pairs": pairs/triples over a reduced variant set
 Variants == IF MODE = "single"
             THEN {Ph(t, i, o, z, g) : t \in DOMAIN Types, i \in {0, 1, 13}, o \in {"horz", "vert"}, z \in DOMAIN Szs, g \in BOOLEAN} \cup Filled
-                 \cup {PhN(t, 0, "horz", 1, g, "sp", "idx0") : t \in {1, 2, 3, 9}, g \in BOOLEAN}
+                 \cup {PhN(t, 0, "horz", 1, g, "sp", "idx0") : t \in {1, 2, 3, 9}, g \in BOOLEAN} \cup Partial
             ELSE {Ph(t, i, "horz", 1, g) : t \in {1, 2, 5, 9, 16}, i \in {0, 1}, g \in BOOLEAN} \cup {Ph(2, 1, "vert", 2, FALSE)}
                  \cup {PhC(16, 1, "horz", 1, TRUE, "pic"), PhC(11, 13, "horz", 1, TRUE, "gf")}
                  \cup {PhN(1, 0, "horz", 1, TRUE, "sp", "same"), PhN(2, 1, "horz", 1, TRUE, "sp", "same"), PhN(2, 13, "horz", 1, FALSE, "sp", "same"),
                        PhN(9, 1, "horz", 1, TRUE, "sp", "amp"), PhN(1, 0, "horz", 1, TRUE, "sp", "idx0"), PhN(3, 0, "horz", 1, FALSE, "sp", "idx0")}
+                 \cup {PhP(2, 1, "off"), PhP(1, 0, "ext")}
 Init == pop = <<>> /\ hist = <<>>
 AddPh == Len(pop) < NPH /\ hist = <<>> /\ \E v \in Variants : pop' = Append(pop, v) /\ UNCHANGED hist
 Act(op, k, j) == [op |-> op, k |-> k, j |-> j]
